@@ -672,7 +672,8 @@ func (rc *RuleClient) ruleRunActions(actions []Action, triggerNodeID string) err
 		case data.PointValuePlayAudio:
 			f, err := os.Open(a.PointFilePath)
 			if err != nil {
-				log.Fatal(err)
+				processError(err)
+				break
 			}
 			defer f.Close()
 
